@@ -35,7 +35,37 @@ let hl_eq a b = match a, b with
   | Some x, Some y -> Svs.hlres_eqb x y
   | _ -> false
 
+(* dup=1: two connections pull the same stream id; the second `next` is queued behind the one that
+   delivers the final chunk.  The model serialises them on the session table: the first gets what
+   [next_handler] returns on the opened table, the second what it returns on the table left behind. *)
+let dup_step cs os =
+  let f = fields cs and o = fields os in
+  match get_opt o "crash" with
+  | Some c -> ["BAD\tside=impl\tclause=crash:" ^ c]
+  | None ->
+    let data = bytes_of_hex (get f "data") in
+    let n = int_of_n (n_of_hex (get f "n")) in
+    let rec nat_of_int k = if k <= 0 then Datatypes.O else Datatypes.S (nat_of_int (k - 1)) in
+    let t0 = Svs.open_handler (nat_of_int n) [data] false in
+    let (r1, t1) = Svs.next_handler t0 in
+    let (r2, _) = Svs.next_handler t1 in
+    let show = function
+      | Svs.RChunk (b, l) -> "c" ^ hex_of_bytes b ^ ":" ^ (if l then "1" else "0")
+      | Svs.RErr _ -> "e" in
+    let cls s = if String.length s >= 1 && s.[0] = 'e' then "e" else s in
+    let a = cls (get o "dupa") and b = cls (get o "dupb") in
+    let bad = ref [] in
+    (* either connection may win the race for the session; what matters is that the two replies are
+       the model's two replies *)
+    let m1 = show r1 and m2 = show r2 in
+    let norm x = if x = "c-:1" then "c:1" else x in
+    let (a, b, m1, m2) = (norm a, norm b, norm m1, norm m2) in
+    if not ((a = m1 && b = m2) || (a = m2 && b = m1)) then
+      bad := ("BAD\tside=impl\tclause=two pulls of one stream id: replies " ^ a ^ " / " ^ b ^ ", the model gives " ^ m1 ^ " then " ^ m2 ^ " (exactly one end marker)") :: !bad;
+    !bad
+
 let step _ cs os =
+  if get_opt (fields cs) "dup" = Some "1" then dup_step cs os else
   let f = fields cs and o = fields os in
   let c = { Svs.c_data = bytes_of_hex (get f "data"); c_n = n_of_hex (get f "n"); c_depth = n_of_hex (get f "d");
             c_writes = nlist (get f "w"); c_fail = optn (get f "f"); c_zstd = (get f "z" = "1");
